@@ -291,7 +291,7 @@ def random_schema(rng, idx):
     fields = name_family(rng, nfields)
     syms = name_family(rng, rng.choice([2, 4, 7, 12]))
     ens = name_family(rng, rng.choice([1, 2, 4]))
-    ens = [e for e in ens if e not in ('R', 'Sub', 'Leaf', 'U')]
+    ens = [e for e in ens if e not in ('R', 'Sub', 'Leaf', 'U', 'Void', 'Gone')]
     if not ens: ens = ['Enum0']
     base_t = rng.choice(['byte', 'short', 'int', 'long', 'ubyte', 'ushort', 'uint'])
     lo, hi = INT_RANGE[base_t]
@@ -306,6 +306,8 @@ def random_schema(rng, idx):
     for e in ens[1:]:
         o.append('enum %s : int { Aa = 0, Ab, %s }' % (e, e + '_x'))
     o.append('table Leaf { leaf:int; }')
+    o.append('table Void {}')
+    o.append('table Gone { was:int (deprecated); }')
     o.append('union U { Leaf }')
     fl = []
     used = set()
@@ -318,7 +320,7 @@ def random_schema(rng, idx):
         elif r < 0.2: fl.append('%s:%s' % (f, ens[0])); used.add(f)
         elif r < 0.24: fl.append('%s:[%s]' % (f, ens[0])); used.add(f)
         else: fl.append('%s:%s' % (f, rng.choice(['int', 'int', 'int', 'short', 'ubyte', 'long']))); used.add(f)
-    for extra, ty in (('zz_enum_field', ens[0]), ('zz_enum_vector', '[%s]' % ens[0]), ('zz_string', 'string'), ('zz_int', 'int')):
+    for extra, ty in (('zz_void', 'Void'), ('zz_voids', '[Void]'), ('zz_gone', 'Gone'), ('zz_enum_field', ens[0]), ('zz_enum_vector', '[%s]' % ens[0]), ('zz_string', 'string'), ('zz_int', 'int')):
         if extra not in used: fl.append('%s:%s' % (extra, ty)); used.add(extra)
     for ln in rng.sample([3, 8, 11, 16, 19, 24], rng.choice([1, 2, 3])):
         u = rand_ident(rng, ln).decode()
